@@ -5,7 +5,14 @@ The rows below are written by hand from the published protocol documentation
 (wiki.vg 'Protocol' page history for each release, 'Protocol version
 numbers').  There is no network in this sandbox, so they are written from
 memory of those pages; this file shares no code or data with pyCraft.  Run it
-to regenerate the JSON (ranges are expanded to explicit protocol numbers)."""
+to regenerate the JSON (ranges are expanded to explicit protocol numbers).
+
+Signedness: 16- and 64-bit integers carry it ('u16' the handshake port,
+'i64' the keep-alive id, the status ping payload, the hashed seed: the
+documentation publishes these as Unsigned Short / Long, and a port above
+32767 or a negative id is an ordinary value).  8-bit fields are all written
+'i8': the published Byte / Unsigned Byte distinction is about small
+enumerations and bit fields, changes no byte on the wire, and is not judged."""
 import json
 import os
 
@@ -42,7 +49,7 @@ PKT = 'minecraft.networking.packets.'
 # ---- handshake / status (unchanged since 1.7) ------------------------------
 packet('handshake', PKT + 'serverbound.handshake:HandShakePacket',
        'serverbound', 'handshake',
-       [(ALL, 0x00, ['varint', 'string', 'i16', 'varint'])])
+       [(ALL, 0x00, ['varint', 'string', 'u16', 'varint'])])
 packet('status request', PKT + 'serverbound.status:RequestPacket',
        'serverbound', 'status', [(ALL, 0x00, [])])
 packet('status ping', PKT + 'serverbound.status:PingPacket',
